@@ -28,12 +28,23 @@ REQ = {
     "coplanarity (isclose under planar_tolerance)": lambda s: (("ret", "numpy.isclose") in s[1] or ("ret", "numpy.allclose") in s[1]) and {"_normal", "_vertices"} <= s[3],
     "simple polygon (_is_simple)": lambda s: ("ret", "isect_polygon") in s[1],
     "convex position 2-D (_is_convex)": lambda s: ("ret", "scipy.spatial.ConvexHull") in s[1],
-    "convex position 3-D (ConvexHull vertex count)": lambda s: ("ret", "scipy.spatial.ConvexHull") in s[1],
+    "convex position 3-D (ConvexHull vertex count)": lambda s: (("ret", "scipy.spatial.ConvexHull") in s[1] or ("ret", "<count:hull>") in s[1]) and ("ret", "<count:input>") in s[1],
 }
+# recognised-but-insufficient formulations of a requirement: (requirement, predicate, key suffix, explanation)
+INSUFFICIENT = [
+    ("duplicate vertices (np.unique)", lambda s: ("ret", "<neighbour-diff>") in s[1] and ("ret", "numpy.unique") not in s[1], "adjacent-only",
+     "duplicates are looked for among consecutive vertices of the given order only (difference of each row with its successor): "
+     "a vertex repeated later in the list, e.g. (A, B, A, C), is accepted"),
+    ("convex position 3-D (ConvexHull vertex count)",
+     lambda s: ("ret", "<count:hull>") in s[1] and ("ret", "<count:input>") not in s[1],
+     "hull-against-itself",
+     "the convex-position test compares the hull's vertex list with a count taken from the hull itself, never with the number of input "
+     "vertices: interior points listed after the hull vertices are accepted"),
+]
 # validation tests of the confirmed tree that belong to no requirement of the table (confirmed by reading)
 BASELINE_EXTRA = [
     lambda s: "normal" in s[2],                                               # the given normal is orthogonal to the polygon
-    lambda s: not s[1] and set(s[2]) == {"vertices"} and not s[3],            # shape tests on the raw argument (.shape[1] in (2, 3))
+    lambda s: s[1] <= {("ret", "<count:input>")} and set(s[2]) == {"vertices"} and not s[3],   # shape tests on the raw argument (.shape[1] in (2, 3))
     lambda s: ("ret", "_calculate_signed_volume") in s[1],                    # positive volume of the core
 ]
 POLY = ["len(vertices) tests (shape, >= 3)", "duplicate vertices (np.unique)", "coplanarity (isclose under planar_tolerance)"]
@@ -149,6 +160,11 @@ def run(index, tier="quick", seed=0) -> Result:
                         if not any(p_(s_) for p_ in known_preds) and ("vertices" in s_[2] or "_vertices" in s_[3]) \
                                 and not any(b_(s_) for b_ in BASELINE_EXTRA):
                             unknown_tests.add(s_[0])
+                weak = [(sfx, why) for (rq_, p_, sfx, why) in INSUFFICIENT if rq_ == req
+                        and any(p_(s_) for (exc_, sigs_, ev_) in tp.raises if exc_ == "ValueError" for s_ in sigs_)]
+                if weak:
+                    res.bad("CT-2", k + ":" + weak[0][0], f"{init.file}:{init.lineno}", f"{label}: {weak[0][1]}")
+                    continue
                 if unknown_tests:
                     raise AnalysisError(f"CT-2: {label} does not contain the recognised form of the test `{req}` but validates its vertices with "
                                         f"{len(unknown_tests)} test(s) the analysis does not know")
